@@ -1,5 +1,5 @@
 (* C08 — rebin computes each output element from exactly its block of inputs *)
-From NDV Require Import M_Rebin P_Rebin.
+From NDV Require Import M_Rebin P_Rebin P_RebinPartition.
 Open Scope Z_scope.
 
 (* reading the array through the reshape to (m0,b0,m1,b1,...) and reducing over the odd axes visits,
@@ -39,6 +39,19 @@ Theorem C08_flat : forall (A : Type) shape bins (x : list Z -> A) k j, divides_a
             flat_block shape bins x k j = x (zip3z (fun j b r => j * b + r) j bins r).
 Proof. exact @flat_block_correct. Qed.
 Print Assumptions C08_flat.
+
+(* the blocks partition the input: every input element lies in the block of exactly one output element, at exactly
+   one position of it - no input is used twice, none is lost - and the sizes agree *)
+Theorem C08_partition : forall shape bins idx, divides_all shape bins -> in_box shape idx ->
+  exists j r, in_box (zip2z Z.div shape bins) j /\ in_box bins r /\ blk j bins r = idx /\
+    forall j' r', in_box (zip2z Z.div shape bins) j' -> in_box bins r' -> blk j' bins r' = idx -> j' = j /\ r' = r.
+Proof. exact block_partition. Qed.
+Print Assumptions C08_partition.
+
+Theorem C08_count : forall shape bins, divides_all shape bins ->
+  zprod (zip2z Z.div shape bins) * zprod bins = zprod shape.
+Proof. exact block_count. Qed.
+Print Assumptions C08_count.
 
 Example C08_nonvacuous :
   rebin_plan [4; 6] [2; 3] = Ok (PBins [2; 2] [2; 3])
